@@ -61,6 +61,10 @@ CLAIMED = {
         text="Lean theorems: the right-hand side handed to the integrator is, without rules, exactly (S + S_d) x rate(x, t) per species (rhsGlobal_eq, via C03's derivative_spec: delayed stoichiometry counted as if the delay were zero) and with rules the derivative of the rule-updated state; the mxstep retry ladder (500, 5000, 50000, 500000); a failed integration is never reported as numbers; the result is the first successful attempt with rules re-applied to the rows; and CONDITIONALLY on the integrator's accuracy contract (SolverAccurate) every reported row is within tolerance of the exact solution (det_accurate - the partial form of the property). Tie: rhs_global(x, t) vs the Lean rhsGlobal (bitwise for mass action); end-to-end validation of the assumed contract against expm closed forms (linear) and DOP853 at 1e-12 (non-linear, time-dependent), uniform and irregular grids, first row.",
         note=NOTE_COMMON + "partial: LSODA's accuracy and step control are assumed, not proved; they are sampled by the end-to-end validation (tolerance 2e-5(1+|x|)).",
         technique="Lean 4 proof (RHS = rate equations; conditional accuracy) + RHS correspondence + reference-solution oracle", ref="DESIGN.md §4 C04"),
+    "C17": dict(
+        text="The pickling code is a set of hand-kept tables, so the model is REGENERATED from the source on every run by a translator (declared cdef attributes, __getstate__ tuple positions incl. inherited prefix/suffix, __setstate__ index assignments, C-vector clear/rebuild loops, the slice handed to the base class) for Model, LineageModel, Schnitz, Lineage, ExperimentalLineage, VolumeCellState. Lean: generic theorem tablesOk t -> restore (dump o) = o on every persistent attribute and every derived C vector mirrors its Python twin; the obligations tablesOk_<Class> are decided by kernel evaluation against what the source says now; LineageModel layout (22 own fields then the Model tuple); restore_binary_term rebuilds the term list in order. Tie/oracle: pickle / deepcopy / copies of copies of models over every propensity, expression node, delay and rule type, initialised or not, after simulations and edits: dictionaries, matrices, propensities in four modes, delay draws, seeded simulations, independence; lineage models over rules/events/splitters; pickled lineages keep data and mutual links; cell states.",
+        note=NOTE_COMMON + "translator is regex-based (harness/extract/pickle_tables.py), cross-checked against __getstate__() lengths at run time; CPython pickle/deepcopy and Cython auto-pickle (used by Term, Propensity, Delay, Rule classes) are trusted; transient allow-list: Model.txt_dict, VolumeCellState.volume_object; shallow copy.copy shares arrays and is not claimed.",
+        technique="Lean 4 proof over a model regenerated by a translator (decide +kernel on the extracted tables + generic round-trip theorem) + copy/pickle oracle", ref="DESIGN.md §4 C17"),
 }
 PENDING = {}
 def main():
